@@ -86,6 +86,12 @@ def cases(tier, variants):
                     for c in (0.2, 5.0):
                         for ti in ("between", "belowboth"):
                             yield dict(part="upd", var=v, prob=pn, k=k, c=c, ftarget=ti)
+                            # ... with ftarget and gtol given as callables (invoked once)
+                            yield dict(part="upd", var=v, prob=pn, k=k, c=c, ftarget=ti,
+                                       callables=1)
+                    # pass-through update function, callable ftarget/gtol
+                    yield dict(part="upd", var=v, prob=pn, k=k, c=1.0, ftarget="belowboth",
+                               callables=1)
         for pn in PROBS:
             for ck in (0, 1, 3):
                 for mi, mf, ml, ft, gi, ti, ci in itertools.product(
@@ -262,10 +268,24 @@ def run_upd(case):
             return c * f0, c * f0_old, c * grad, type(G)(c * q for q in G)
         return f0, f0_old, grad, G
     kw = dict(maxiter=8, maxfun=1000)
+    ncb = dict(ft=0, gt=0)
+
+    def tcall():
+        ncb["ft"] += 1
+        return tval
+
+    def gcall():
+        ncb["gt"] += 1
+        return 1e-12
+    cb = bool(case.get("callables"))
     res = minimize_lbfgsb(x0=x0.copy(), fun=lambda x: sc[0] * f(x), jac=lambda x: sc[0] * g(x),
-                          bounds=bounds, maxcor=3, ftol=-10.0, gtol=1e-12, ftarget=tval,
-                          update_fun_def=upd, **kw)
+                          bounds=bounds, maxcor=3, ftol=-10.0, gtol=(gcall if cb else 1e-12),
+                          ftarget=(tcall if cb else tval), update_fun_def=upd, **kw)
     out = term_oracle(res, kw, lb, ub, 1e-12, tval, False, 0, 1, True)
+    if cb and ncb["ft"] != 1:
+        out.append(("callable_ftarget_called_n_times", dict(n=ncb["ft"], nit=int(res.nit))))
+    if cb and ncb["gt"] != 1:
+        out.append(("callable_gtol_called_n_times", dict(n=ncb["gt"], nit=int(res.nit))))
     # the run must not go on after the (redefined) value met the target either
     return dict(viol=[V(s, **d) for s, d in out], outcome=f"upd|{res.message}",
                 nontrivial=core.case_hash(case))
